@@ -186,7 +186,11 @@ pub(crate) mod verif_mpmc {
                         spend[i] = false;
                     }
                     Poll::Pending => {
-                        oracle!(p, P09 | P10 | P11, exp == 0, "C09 mpmc: a send stays pending although there is room, its value was taken, or the channel is closed");
+                        if closed {
+                            oracle!(p, P09 | P10 | P11, false, "C11 mpmc: a send stays pending although the channel is closed");
+                        } else {
+                            oracle!(p, P09 | P10 | P11, exp == 0, "C09 mpmc: a send stays pending although there is room or its value was taken");
+                        }
                         spend[i] = true;
                         lw[i] = w;
                         snap[i] = cell.n();
@@ -251,7 +255,11 @@ pub(crate) mod verif_mpmc {
                         rpend[j] = false;
                     }
                     Poll::Pending => {
-                        oracle!(p, P10 | P08 | P11, exp.is_none(), "C10 mpmc: a receive stays pending although a value is available or the channel is closed and drained");
+                        if exp == Some(None) {
+                            oracle!(p, P10 | P08 | P11, false, "C11 mpmc: a receive stays pending although the channel is closed and drained");
+                        } else {
+                            oracle!(p, P10 | P08 | P11, exp.is_none(), "C10 mpmc: a receive stays pending although a value is available");
+                        }
                         rpend[j] = true;
                         lw[2 + j] = w;
                         snap[2 + j] = cell.n();
@@ -382,10 +390,15 @@ pub(crate) mod verif_mpmc {
                     if spend[i] && ss[i] == 3 {
                         assert!(wk[i], "C10 mpmc: a pending sender whose value was accepted was not woken through its latest waker");
                     }
-                    if closed && spend[i] { assert!(wk[i], "C10 mpmc: a sender pending at close() was not woken"); }
-                    if closed && rpend[i] { assert!(wk[2 + i], "C10 mpmc: a receiver pending at close() was not woken"); }
                     i += 1;
                 }
+            }
+            // "every pending future after close() has been woken" is a clause of C10 and of C11
+            if (p & (P10 | P11)) != 0 && closed {
+                if spend[0] { assert!(wk[0], "C10+C11 mpmc: a sender pending at close() was not woken"); }
+                if spend[1] { assert!(wk[1], "C10+C11 mpmc: a sender pending at close() was not woken"); }
+                if rpend[0] { assert!(wk[2], "C10+C11 mpmc: a receiver pending at close() was not woken"); }
+                if rpend[1] { assert!(wk[3], "C10+C11 mpmc: a receiver pending at close() was not woken"); }
             }
             if (p & P17) != 0 {
                 if ss[0] != 0 { assert!(s0.is_terminated() == (ss[0] == 5), "C17 mpmc: send future is_terminated() differs from 'completed or cancelled'"); }
@@ -565,7 +578,7 @@ pub(crate) mod verif_mpmc {
                         core::mem::forget(e);
                     }
                     Poll::Pending => {
-                        oracle!(p, P09 | P11, ss[t] == 1 || (ss[t] == 0 && !closed && len == cap), "C09 mpmc step: a send stays pending although there is room, its value was taken, or the channel is closed");
+                        oracle!(p, P09 | P11, ss[t] == 1 || (ss[t] == 0 && !closed && len == cap), "C09+C11 mpmc step: a send stays pending although there is room, its value was taken, or the channel is closed");
                     }
                 }
             } else if cls == 1 {
@@ -588,7 +601,7 @@ pub(crate) mod verif_mpmc {
                         core::mem::forget(v);
                     }
                     Poll::Ready(None) => { oracle!(p, P11 | P08, rs[t] != 1 && closed && !avail, "C11 mpmc step: a receive yielded None although open or a value is available"); }
-                    Poll::Pending => { oracle!(p, P10 | P11, rs[t] == 1 || (!avail && !closed), "C10 mpmc step: a receive stays pending although a value is available or the channel is closed"); }
+                    Poll::Pending => { oracle!(p, P10 | P11, rs[t] == 1 || (!avail && !closed), "C10+C11 mpmc step: a receive stays pending although a value is available or the channel is closed"); }
                 }
             } else if cls == 2 {
                 // drop send / drop recv / cancel send
@@ -659,11 +672,11 @@ pub(crate) mod verif_mpmc {
             while i < 2 {
                 if alive_r[i] && rs[i] == 1 && rs2[i] != 1 && i != polled_r {
                     let c = if lwr[i] { cells_ra[i] } else { cells_rb[i] };
-                    oracle!(p, P10 | P11, c.n() == 1, "C10 mpmc step: a registered receiver was dequeued without being woken through its latest waker");
+                    oracle!(p, P10 | P11, c.n() == 1, "C10+C11 mpmc step: a registered receiver was dequeued without being woken through its latest waker");
                 }
                 if alive_s[i] && ss[i] == 1 && ss2[i] != 1 && i != polled_s && !(cls == 2 && sub == 2 && i == t) {
                     let c = if lws[i] { cells_sa[i] } else { cells_sb[i] };
-                    oracle!(p, P10 | P11, c.n() == 1, "C10 mpmc step: a parked sender was dequeued without being woken through its latest waker");
+                    oracle!(p, P10 | P11, c.n() == 1, "C10+C11 mpmc step: a parked sender was dequeued without being woken through its latest waker");
                 }
                 i += 1;
             }
